@@ -29,8 +29,7 @@ ASSUMPTIONS = [
 FULL = Profile(tbin=('since', 'until', 'unless'), max_depth=4)
 PAST = Profile(un_temp=F.UN_PAST, bin_temp=F.BIN_PAST, tun=F.TUN_PAST, tbin=F.TBIN_PAST, max_depth=4)
 UNTIMED = Profile(tun=(), tbin=(), max_depth=4)
-UNTIMED_BF = Profile(tun=(), tbin=(), un_temp=F.UN_PAST + ('next', 's_next'), bin_temp=F.BIN_PAST, max_depth=4,
-                     no_future_under_past=True)
+UNTIMED_BF = Profile(tun=(), tbin=(), un_temp=F.UN_PAST + ('next', 's_next'), bin_temp=F.BIN_PAST, max_depth=4)
 
 TAPE = st.lists(st.integers(0, 23), min_size=40, max_size=40)
 
